@@ -182,7 +182,7 @@ func (x *c18World) apply(op string) bool {
 			case "leadnl": // text that starts with a line feed
 				title, body = "\nT", "\nHello,\nworld"
 			case "mac": // Mac Roman text, as every classic client sends it: not valid UTF-8
-				title, body = "Caf\x8e", "r\x8esum\x8e \xa5 na\x95ve"
+				title, body = "Caf\x8e", "r\x8esum\x8e\r\t\xa5 na\x95ve\nfin"
 			}
 		}
 		var maxID uint32
